@@ -662,10 +662,19 @@ def _ctor_cases(chk, P, c, bins_of):
     ib, ii, ie = ini[0]
     A = call_args(ie)[0]
     v = var_of(A) if A[0] == "var" else None
-    start = None
-    for it in c.d.get("inits", []):
-        if it.get("field") == P2D + "::executor" and it.get("written"):
-            start = "null" if _ival(it["init"], {}) == 0 else "pool"
+    def ptr_state(x, env):
+        """null / pool / any for a pointer-valued expression; a conditional expression is taken apart under env"""
+        while isinstance(x, list) and x and x[0] in ("cast", "conv") and isinstance(x[-1], list):
+            x = x[-1]
+        if isinstance(x, list) and x and x[0] == "cond" and len(x) == 4:
+            t = _ival(x[1], env, c)
+            if t is None:
+                a, b = ptr_state(x[2], env), ptr_state(x[3], env)
+                return a if a == b else "any"
+            return ptr_state(x[2] if t else x[3], env)
+        if _ival(x, {}) == 0:
+            return "null"
+        return "pool" if isinstance(x, list) and x and (x[0] == "new" or (x[0] == "un" and x[1] == "&") or x[0] == "addr") else "any"
     cases = set()
     for r in _REPS:
         if v is not None:
@@ -681,6 +690,12 @@ def _ctor_cases(chk, P, c, bins_of):
         live = _live_blocks(c, dead)
         if ib not in live:
             continue
+        start = None
+        for it in c.d.get("inits", []):
+            if it.get("field") == P2D + "::executor" and it.get("written"):
+                # (a member initialiser runs before the body: a test of v there sees the value v has on entry)
+                assigned_v = v is not None and any(True for _ in c.events(lambda q: q["k"] == "assign" and var_of(q["lhs"]) == v))
+                start = ptr_state(it["init"], {} if assigned_v else env)
         # last write of executor on each live path to the init call
         states = set()
         seen = set()
@@ -697,8 +712,8 @@ def _ctor_cases(chk, P, c, bins_of):
                     done = True
                     break
                 if e["k"] == "assign" and field_of(e["lhs"]) == P2D + "::executor" and e["lhs"][0] == "mem":
-                    val = _ival(e.get("rhs"), {})
-                    s = "null" if val == 0 else ("pool" if e.get("rhs") and e["rhs"][0] in ("new", "un", "addr") else "any")
+                    stale = v is not None and c.path_exists((b, j), lambda q: q["k"] == "assign" and var_of(q["lhs"]) == v, lambda q: False, lift=0) is not None
+                    s = ptr_state(e.get("rhs"), {} if stale else env)
             if done:
                 continue
             for t in c.succs(b):
